@@ -10,5 +10,6 @@ cp -r verifsim "$S/src/verifsim"
 printf '\nrequire github.com/anishathalye/porcupine v1.3.0\n' >> "$S/src/go.mod"
 cd "$S/src"
 go1.26.8 run ./verifsim/cmd/rewriteimports store/fscache
+go1.26.8 run ./verifsim/cmd/instrumentgo .
 go1.26.8 test -c -o "$S/sim.test" ./verifsim/engine
 echo "setup ok"
